@@ -241,7 +241,16 @@ func runUpdate(o *Out, spec *Spec, r *Ref, m *MethodSpec) {
 				continue
 			}
 			var sv reflect.Value
-			if len(fs.Path) > 0 {
+			if len(fs.Path) == 1 && fs.Path[0] == "." {
+				if fs.Func == "" && S.Kind() == reflect.Ptr && (flags.IZBasic || flags.IZStruct || flags.IZNillable) {
+					// the nested struct is updated field by field by the pointer-source method itself; whether the
+					// skipping of zero values extends into it is not stated: not judged
+					ev.Abstained++
+					ev.AbstainWhy = "map . into a nested struct under ignoreZeroValueField in a pointer-source update method"
+					continue
+				}
+				sv = sbase
+			} else if len(fs.Path) > 0 {
 				v, _, err := walkPath(sbase, fs.Path)
 				if err != nil {
 					continue
@@ -258,6 +267,10 @@ func runUpdate(o *Out, spec *Spec, r *Ref, m *MethodSpec) {
 				sv = field(sbase, sf.Index[0])
 			}
 			zero := isZeroDeep(sv)
+			if zero && fs.Func != "" && len(fs.Path) == 1 && fs.Path[0] == "." && funcTakesPointer(r.Callables[fs.Func], sv.Type()) {
+				// the function receives the (non-nil) source pointer of the method: that value is not zero
+				zero = false
+			}
 			if zero {
 				cat := zeroCategory(sv.Type())
 				selected := (cat == "basic" && flags.IZBasic) || (cat == "struct" && flags.IZStruct) || (cat == "nillable" && flags.IZNillable) ||
@@ -291,4 +304,18 @@ func runUpdate(o *Out, spec *Spec, r *Ref, m *MethodSpec) {
 			ev.SampleSrc, ev.SampleRes = srcStr+" onto "+preStr, Format(after)
 		}
 	}
+}
+
+// funcTakesPointer reports whether fn has a parameter of type *t.
+func funcTakesPointer(fn reflect.Value, t reflect.Type) bool {
+	if !fn.IsValid() {
+		return false
+	}
+	ft := fn.Type()
+	for i := 0; i < ft.NumIn(); i++ {
+		if ft.In(i) == reflect.PtrTo(t) {
+			return true
+		}
+	}
+	return false
 }
